@@ -654,101 +654,6 @@ func (s *Sys) oldestProving(on, of *world.Chain, artefactHeight int64) int64 {
 	return best
 }
 
-func (s *Sys) stepRecv(id, form string, add addFn) (string, string) {
-	t := s.find(id)
-	msgs, signer, dst, twoTx := s.recvMsg(t, form)
-	var txs [][]byte
-	if twoTx {
-		ctx := dst.ReadCtx()
-		acc := dst.App.AccountKeeper.GetAccount(ctx, signer.Acc)
-		txs = append(txs, dst.CosmosTxSeq(signer, acc.GetAccountNumber(), acc.GetSequence(), msgs...))
-		txs = append(txs, dst.CosmosTxSeq(signer, acc.GetAccountNumber(), acc.GetSequence()+1, msgs...))
-	} else {
-		txs = append(txs, dst.CosmosTx(signer, msgs...))
-	}
-	dst.Begin(s.w.Tick())
-	var obs []string
-	class := "recv " + form
-	for _, tx := range txs {
-		wasReceived := t.Received
-		pre := dumpAll(dst)
-		r := dst.Deliver(tx)
-		post := dumpAll(dst)
-		s.globalMonitors(dst, pre, post, nil, add, "recv")
-		d := diffAll(pre, post)
-		obs = append(obs, fmt.Sprint(r.Code))
-		mustReject := wasReceived || len(msgs) > 1
-		if r.Code != 0 {
-			class += " rejected"
-			if len(d) > 0 {
-				add("C01", "rejected-receive-changed-state", fmt.Sprintf("recv %s %s on %s rejected (%s) but changed %v", id, form, short[dst.Name], r.Log, d))
-			}
-			continue
-		}
-		class += " accepted"
-		if mustReject {
-			add("C01", "duplicate-receive-accepted", fmt.Sprintf("recv %s form %s on %s accepted although the triple was already received (or is repeated inside the tx); changed %v", id, form, short[dst.Name], d))
-		}
-		for _, m := range msgs {
-			s.groundTruthRecv(dst, m.(*packettypes.MsgRecvPacket), add, id+" "+form)
-		}
-		t.Received = true
-		t.AckAt = dst.Height() + 1
-		if nt := s.observeSends(dst, pre, post, r, add, "recv "+id); len(nt) > 0 {
-			class += fmt.Sprintf(" nested-sends=%d", len(nt))
-			for _, x := range nt {
-				x.Nested = true
-			}
-		}
-		// C05a: exactly one new ack, for this triple, hash of the bytes announced in EventWriteAck
-		var p packettypes.Packet
-		must(p.ABIDecode(t.Bytes))
-		ackKey := string(host.PacketAcknowledgementKey(p.SrcChain, p.DstChain, p.Sequence))
-		var newAcks []string
-		for _, x := range d {
-			if strings.HasPrefix(x, host.StoreKey+":+"+host.KeyPacketAckPrefix+"/") {
-				newAcks = append(newAcks, strings.TrimPrefix(x, host.StoreKey+":+"))
-			}
-		}
-		if len(newAcks) != 1 || newAcks[0] != ackKey {
-			add("C05", "receive-did-not-write-exactly-one-ack", fmt.Sprintf("recv %s on %s wrote acks %v, want exactly %s", id, short[dst.Name], newAcks, ackKey))
-		}
-		acks := world.TypedEventAttr(r, "xibc.core.packet.v1.EventWriteAck", "ack")
-		if len(acks) == 1 {
-			var b64 string
-			json.Unmarshal([]byte(acks[0]), &b64)
-			raw, _ := decodeB64(b64)
-			t.AckBytes = raw
-			hh := sha256.Sum256(raw)
-			if post[host.StoreKey][ackKey] != string(hh[:]) {
-				add("C05", "stored-ack-not-hash-of-announced-ack", fmt.Sprintf("recv %s: stored %x, sha256(event ack)=%x", id, post[host.StoreKey][ackKey], hh))
-			}
-			var a packettypes.Acknowledgement
-			if err := a.ABIDecode(raw); err == nil {
-				t.AckCode = a.Code
-				if want := signer.Acc.String(); a.Relayer != want {
-					add("C06", "ack-relayer-not-registered-counterparty-address", fmt.Sprintf("recv %s by %s: ack.Relayer=%q want %q", id, signer.Name, a.Relayer, want))
-				}
-				if a.Code == 0 {
-					class += " exec-ok"
-				} else {
-					class += " exec-failed"
-					s.checkNoDestinationEffect(dst, t, pre, post, add)
-				}
-			}
-		} else {
-			add("C05", "receive-ack-event-count", fmt.Sprintf("recv %s: %d EventWriteAck", id, len(acks)))
-		}
-		// receipts: exactly one new receipt
-		rk := string(host.PacketReceiptKey(p.SrcChain, p.DstChain, p.Sequence))
-		if _, ok := post[host.StoreKey][rk]; !ok {
-			add("C01", "accepted-receive-without-receipt", fmt.Sprintf("recv %s accepted but no receipt %s", id, rk))
-		}
-	}
-	dst.End()
-	return "recv " + strings.Join(obs, ","), class
-}
-
 // groundTruthRecv: an accepted receive must be backed by what the source chain really stored (the harness owns both chains).
 func (s *Sys) groundTruthRecv(dst *world.Chain, m *packettypes.MsgRecvPacket, add addFn, what string) {
 	var p packettypes.Packet
@@ -828,92 +733,6 @@ func (s *Sys) ackMsg(t *transfer, form string) (sdk.Msg, world.Account, *world.C
 	}
 	proof, ph := s.proofFor(src, dst, key, h)
 	return packettypes.NewMsgAcknowledgement(t.Bytes, ack, proof, ph, signer.Acc), signer, src
-}
-
-func (s *Sys) stepAck(id, form string, add addFn) (string, string) {
-	t := s.find(id)
-	msg, signer, src := s.ackMsg(t, form)
-	dst := s.w.Chains[t.Dst]
-	msgs := []sdk.Msg{msg}
-	if form == "dup2" {
-		msgs = append(msgs, msg)
-	}
-	tx := src.CosmosTx(signer, msgs...)
-	var p packettypes.Packet
-	must(p.ABIDecode(t.Bytes))
-	ck := string(host.PacketCommitmentKey(p.SrcChain, p.DstChain, p.Sequence))
-	relayerBalPre := s.feeBalance(src, t, src.Accounts["r1"]).Int64() + s.feeBalance(src, t, src.Accounts["r2"]).Int64()
-	statusPre := src.AckStatus(p.DstChain, p.Sequence)
-	senderPre := s.senderHoldings(src, t)
-
-	src.Begin(s.w.Tick())
-	pre := dumpAll(src)
-	r := src.Deliver(tx)
-	post := dumpAll(src)
-	allowed := map[string]bool{}
-	if r.Code == 0 {
-		allowed[ck] = true
-	}
-	s.globalMonitors(src, pre, post, allowed, add, "ack")
-	src.End()
-	d := diffAll(pre, post)
-	class := "ack " + form
-	if r.Code != 0 {
-		class += " rejected"
-		if len(d) > 0 {
-			add("C05", "rejected-ack-changed-state", fmt.Sprintf("ack %s %s on %s rejected (%s) but changed %v", id, form, short[src.Name], r.Log, d))
-		}
-		return "ack rejected", class
-	}
-	class += " accepted"
-	if t.Acked || form == "dup2" {
-		add("C05", "acknowledgement-processed-twice", fmt.Sprintf("ack %s form %s accepted on %s although it was already processed (or repeated inside the tx)", id, form, short[src.Name]))
-	}
-	if form == "conflict" || form == "early" {
-		add("C02", "unauthentic-ack-accepted", fmt.Sprintf("ack %s form %s (bytes the counterparty never stored) accepted on %s", id, form, short[src.Name]))
-	}
-	// the commitment existed, matched the packet, and is gone now
-	hp := sha256.Sum256(t.Bytes)
-	if pre[host.StoreKey][ck] != string(hp[:]) {
-		add("C05", "ack-accepted-without-matching-commitment", fmt.Sprintf("ack %s: commitment before was %x", id, pre[host.StoreKey][ck]))
-	}
-	if _, still := post[host.StoreKey][ck]; still {
-		add("C05", "ack-did-not-remove-commitment", fmt.Sprintf("ack %s accepted, commitment still stored", id))
-	}
-	// ground truth: the counterparty really stores sha256(ack bytes) under the ack key
-	var am *packettypes.MsgAcknowledgement = msg.(*packettypes.MsgAcknowledgement)
-	ha := sha256.Sum256(am.Acknowledgement)
-	truth := dst.StoreAt(host.PacketAcknowledgementKey(p.SrcChain, p.DstChain, p.Sequence), int64(am.ProofHeight.RevisionHeight)-1)
-	if !bytes.Equal(truth, ha[:]) {
-		add("C02", "ack-accepted-but-counterparty-never-stored-it", fmt.Sprintf("ack %s: counterparty stores %x at version %d, message carries hash %x", id, truth, am.ProofHeight.RevisionHeight-1, ha))
-	}
-	var a packettypes.Acknowledgement
-	must(a.ABIDecode(am.Acknowledgement))
-	statusPost := src.AckStatus(p.DstChain, p.Sequence)
-	wantStatus := uint8(1)
-	if a.Code != 0 {
-		wantStatus = 2
-	}
-	if statusPre != 0 || statusPost != wantStatus {
-		add("C05", "ack-status-not-recorded-once", fmt.Sprintf("ack %s code %d: ackStatus %d -> %d, want 0 -> %d", id, a.Code, statusPre, statusPost, wantStatus))
-	}
-	relayerBalPost := s.feeBalance(src, t, src.Accounts["r1"]).Int64() + s.feeBalance(src, t, src.Accounts["r2"]).Int64()
-	if relayerBalPost-relayerBalPre != t.Fee {
-		add("C05", "relayer-fee-not-paid-exactly-once", fmt.Sprintf("ack %s: relayers gained %d, fee was %d", id, relayerBalPost-relayerBalPre, t.Fee))
-	}
-	senderPost := s.senderHoldings(src, t)
-	wantRefund := int64(0)
-	if a.Code != 0 {
-		wantRefund = t.Amount
-		class += " refund"
-	} else {
-		class += " delivered"
-	}
-	if !t.Nested && senderPost-senderPre != wantRefund {
-		add("C03", "refund-amount-wrong", fmt.Sprintf("ack %s (%s) code %d: sender holdings changed by %d, want %d", id, t.Kind, a.Code, senderPost-senderPre, wantRefund))
-	}
-	t.Acked = true
-	return "ack accepted", class
 }
 
 // tokenOf returns the token a transfer moves on its source chain (zero address = native).
